@@ -24,7 +24,7 @@ class WbDecWorld(World):
                        "requesting initiator (seeded byzantine agent)")
     fault_kinds = ("byzantine_request", "garbage_dat_r_unselected", "multi_response",
                    "err_response", "rty_response", "stall_response", "nobody_selected_with_cyc",
-                   "stb_without_cyc", "rejected_re_add", "rejected_invalid_add", "refused_bus_responds", "memory_map_assigned_through_setter",
+                   "stb_without_cyc", "rejected_re_add", "rejected_invalid_add", "refused_bus_responds", "rejected_add_of_interface_sharing_the_map", "memory_map_assigned_through_setter",
                    "second_instance_in_process", "queried_or_elaborated_while_being_populated")
     assumptions = (
         "Amaranth's Python RTL simulator executes the elaborated netlist faithfully",
@@ -68,7 +68,7 @@ class WbDecWorld(World):
             subs.append({"sparse": sparse, "dw": sdw, "g": sg, "aw": saw, "feats": sorted(sf),
                          "name": None if rng.chance(0.5) else f"w{i}", "addr": addr,
                          "align_to": rng.range(0, 4) if rng.chance(0.15) else None,
-                         "readd": int(rng.chance(0.08)),
+                         "readd": int(rng.chance(0.08)), "shadowed": int(rng.chance(0.06)),
                          # the subordinate's own map may be created with an alignment
                          "sal": rng.range(1, 3) if rng.chance(0.15) else 0})
         return {"aw": aw, "dw": dw, "g": g, "feats": sorted(feats), "al": al, "subs": subs,
@@ -175,6 +175,20 @@ class WbDecWorld(World):
                     stats.probe("subordinate_map_with_alignment")
                 if sc.get("align_to") is not None:
                     dut.align_to(sc["align_to"])
+                if sc.get("shadowed"):
+                    # another interface that carries the very same memory map (e.g. the second
+                    # port of the peripheral) is offered first, at an impossible address: refused
+                    sb0 = wishbone.Interface(addr_width=sc["aw"], data_width=sc["dw"],
+                                             granularity=sc["g"], features=spell(sc["feats"]),
+                                             path=(f"z{i}",))
+                    sb0.memory_map = sb.memory_map
+                    try:
+                        dut.add(sb0, name=f"z{i}", sparse=sc["sparse"],
+                                addr=(1 << max(1, aw + gb)) - (1 << smaw) + (1 << smaw))
+                        raise Violation("C07", "out-of-range-window-accepted", 0, "")
+                    except (ValueError, TypeError):
+                        stats.fault("rejected_add_of_interface_sharing_the_map")
+                        ghosts.append(sb0)
                 kw = {}
                 if sc.get("addr") is not None:
                     kw["addr"] = sc["addr"]
